@@ -37,6 +37,17 @@ func H03_dv() {
 	nDocs := 1 + vChoice("nDocs", vParam("maxDocs", 2))
 	docs, sp := vGenBatch(vDvCfg("", "d", nDocs))
 	var z ZapPlugin
+	if vBool("priorBuild") {
+		// the (pooled) builder has been used before, for a batch with doc values on every field
+		prior, _ := vGenBatchFixed(gCfg{prefix: "p", idBase: "p", nDocs: 1, wide: -1, idDV: false,
+			fields: []gField{
+				{name: "f", terms: []string{"z"}, dv: true, fixFreq: true},
+				{name: "g", terms: []string{"z"}, dv: true, fixFreq: true},
+				{name: "n", terms: []string{"z"}, dv: true, fixFreq: true},
+			}})
+		_, _, err := z.newWithChunkMode(prior, DefaultChunkMode)
+		vAssert(err == nil, "prior-build")
+	}
 	segI, _, err := z.newWithChunkMode(docs, DefaultChunkMode)
 	vAssert(err == nil, "build")
 	var seg segment.Segment = segI
